@@ -559,7 +559,7 @@ def _post(p):
                     break
             if changed:
                 break
-    if not NORMALIZE_INV or len(p.t) < 2:
+    if not NORMALIZE_INV:
         return p
     return _reduce_inv(p)
 
@@ -956,61 +956,82 @@ def ind(op, lhs, rhs):
 # --------------------------------------------------------------------------
 
 
-def map_atoms(p, f):
+def map_atoms(p, f, _cache=None):
     """rebuild p applying f(atom)->Poly|None (None = keep, after recursing into nested polys).
-    Atoms with algebraic meaning (P, exp, abs, ind) are rebuilt through their constructors so that the
-    result is again in normal form."""
+    Atoms with algebraic meaning (P, R, exp, abs, ind) are rebuilt through their constructors so that
+    the result is again in normal form."""
+    cache = {} if _cache is None else _cache
     out = Poly()
     for m, c in p.t.items():
         term = Poly.const(c)
         for a, e in m:
-            r = f(a)
-            if r is not None:
-                term = term * (as_poly(r) ** e)
-                continue
-            t = a[0]
-            if t == "P":
-                inner = map_atoms(a[1], f)
-                term = term * (Poly.atom(a, e) if inner == a[1] else inner**e)
-            elif t == "R":
-                inner = map_atoms(a[1], f)
-                term = term * (Poly.atom(a, e) if inner == a[1] else inner ** Fr(e, a[2]))
-            elif t in ("exp", "expi"):
-                inner = map_atoms(Poly({a[1]: ONE}), f)
-                if inner == Poly({a[1]: ONE}):
-                    term = term * Poly.atom(a, e)
+            base = cache.get(a)
+            if base is None:
+                base = _map_one(a, f, cache)
+                cache[a] = base
+            if base is _KEEP:
+                term = term * Poly.atom(a, e)
+            elif isinstance(base, tuple):
+                # (kind, inner) : power has to be taken on the inner polynomial
+                kind, inner, den = base
+                if kind == "P":
+                    term = term * inner**e
                 else:
-                    term = term * (exp(inner if t == "exp" else inner.scale(IMAG)) ** e)
-            elif t == "abs":
-                inner = map_atoms(a[1], f)
-                term = term * (Poly.atom(a, e) if inner == a[1] else absval(inner) ** e)
-            elif t == "ind" and a[1] in ("eq", "le", "lt"):
-                l, r2 = map_atoms(a[2], f), map_atoms(a[3], f)
-                term = term * (Poly.atom(a) if (l == a[2] and r2 == a[3]) else ind(a[1], l, r2))
+                    term = term * inner ** Fr(e, den)
             else:
-                a2 = _map_nested(a, f)
-                if a2 is not a and t in REBUILD:
-                    term = term * (as_poly(REBUILD[t](a2)) ** e)
-                else:
-                    term = term * Poly.atom(a2, e)
+                term = term * (base**e if e != 1 else base)
         out = out + term
     return out
+
+
+_KEEP = object()
+
+
+def _map_one(a, f, cache):
+    r = f(a)
+    if r is not None:
+        return as_poly(r)
+    t = a[0]
+    if t == "P":
+        inner = map_atoms(a[1], f, cache)
+        return _KEEP if inner == a[1] else ("P", inner, 1)
+    if t == "R":
+        inner = map_atoms(a[1], f, cache)
+        return _KEEP if inner == a[1] else ("R", inner, a[2])
+    if t in ("exp", "expi"):
+        inner = map_atoms(Poly({a[1]: ONE}), f, cache)
+        if inner == Poly({a[1]: ONE}):
+            return _KEEP
+        return exp(inner if t == "exp" else inner.scale(IMAG))
+    if t == "abs":
+        inner = map_atoms(a[1], f, cache)
+        return _KEEP if inner == a[1] else absval(inner)
+    if t == "ind" and a[1] in ("eq", "le", "lt"):
+        l, r2 = map_atoms(a[2], f, cache), map_atoms(a[3], f, cache)
+        return _KEEP if (l == a[2] and r2 == a[3]) else ind(a[1], l, r2)
+    a2 = _map_nested(a, f, cache)
+    if a2 is a:
+        return _KEEP
+    if t in REBUILD:
+        return as_poly(REBUILD[t](a2))
+    return Poly.atom(a2)
 
 
 # tag -> function(atom with substituted arguments) -> Poly ; registered by symops for the linear atoms
 REBUILD = {}
 
 
-def _map_nested(a, f):
+def _map_nested(a, f, cache=None):
     new = []
     changed = False
     for x in a:
         if isinstance(x, Poly):
-            y = map_atoms(x, f)
-            changed = changed or (y is not x and y != x)
+            y = map_atoms(x, f, cache)
+            if y != x:
+                changed = True
             new.append(y)
         elif isinstance(x, tuple) and x and isinstance(x[0], tuple):
-            # monomial embedded in an atom (exp atoms)
+            # monomial embedded in an atom
             y = _map_mono(x, f)
             new.append(y)
             changed = changed or y != x
